@@ -22,6 +22,12 @@ type simSchedule struct {
 }
 
 func runSchedule(s simSchedule, out *bufio.Writer) (err error) {
+	if s.Nonvoters == nil {
+		s.Nonvoters = []uint64{}
+	}
+	if s.Voters == nil {
+		s.Voters = []uint64{}
+	}
 	dir := mustTempDir("sim")
 	defer os.RemoveAll(dir)
 	defer func() {
